@@ -42,7 +42,7 @@ RULE = ('cases are drawn from the quantifier of C10: (fit) data files of 1..12 l
         'ineligible sources with at least one eligible, n_data_min in 0..n_filters+1, all six selector forms, '
         'output_convolved yes/no, file ending at EOF (with / without newline) or at a blank line; (rw) 1..5 '
         'arbitrary records incl. NaN/inf chi2 written and read back, partly sharing objects that are mutated between the writes (compared with snapshots taken at write time); (hist) sequences of <=3 post-processing '
-        'calls (all seven consumers incl. plot_params_1d/2d; additional=; filter_output chi= / cpd=) with different selectors on results passed as file / object / list; fit cases use distance-independent, distance-dependent and cube packages (wavelength-type filters), data as path or open file.  A fit case is non-trivial '
+        'calls (all seven consumers incl. plot_params_1d/2d; additional=; filter_output chi= / cpd=) with different selectors on results passed as file / object / list; fit cases use distance-independent, distance-dependent and cube packages (wavelength-type filters), data as path or open file; a fit case may hold duplicated photometry under other names / positions and 1-2 further fit() calls on the same package in the same process with varied arguments (same aperture / distance numbers in other units, other av_range, n_data_min / selector, filter subset), each output compared with a new Fitter for its own arguments.  A fit case is non-trivial '
         'when it holds at least one ineligible line or more than one record; a hist case when at least one call '
         'cuts a record (k < n_fits); distinct = distinct canonical hash of the generated case')
 REQUIRED_BRANCHES = ['ineligible_skipped', 'all_eligible', 'nmin_zero', 'conv_yes', 'conv_no',
